@@ -325,6 +325,10 @@ class CFG:
         new_productions = []
         for terminal in self._terminals:
             var = Variable(str(terminal.value) + "#CNF#")
+            idx = 0
+            while var in self._variables or var in term_to_var.values():
+                idx += 1
+                var = Variable(str(terminal.value) + "#CNF#" + str(idx))
             term_to_var[terminal] = var
         # We want to add only the useful productions
         used = set()
